@@ -12,6 +12,7 @@ x[a:b] (slice with Python's negative-wrap / clipping)      `pySlice`
 pad_reuse (ndim = 1): select / orient / block             `padReuse`
 np.pad reflect/symmetric/wrap (periodic extension)         `padSpec`
 reshape.expand_tuple / contract_tuple                      `expandTuple` / `contractTuple`
+_shuffle: grouping loop, sorter, source chunks, takers      `packGroups`, `sortPairs`, `runsBy`, `shuffleChunk`
 Import-free (linked into the native driver).
 -/
 namespace Dask.Structural
@@ -106,6 +107,46 @@ def padChunks (constant : Bool) (chunks : List Nat) (width : Nat) : List Nat :=
   else
     let bd := chunks.foldr max 0
     if bd = 0 then [width] else List.replicate (width / bd) bd ++ (if width % bd ≠ 0 then [width % bd] else [])
+
+/-! ### `_shuffle` (take / shuffle along one axis) -/
+
+def packGroups (limit tolNum tolDen : Nat) : List Nat → List (List Nat) → List (List Nat)
+  | cur, [] => if cur.length > 0 then [cur] else []
+  | cur, idx :: rest =>
+    if cur.length + idx.length > limit ∧ cur.length > 0 then cur :: packGroups limit tolNum tolDen idx rest
+    else if (cur ++ idx).length * tolNum > limit * tolDen then (cur ++ idx) :: packGroups limit tolNum tolDen [] rest
+    else packGroups limit tolNum tolDen (cur ++ idx) rest
+
+/-- stable insertion into a list of `(value, position)` pairs sorted by value -/
+def insertP (a : Nat × Nat) : List (Nat × Nat) → List (Nat × Nat)
+  | [] => [a]
+  | b :: l => if a.1 ≤ b.1 then a :: b :: l else b :: insertP a l
+
+/-- `sorter = np.argsort(taker)` with the sorted values: pairs `(taker[sorter[i]], sorter[i])` -/
+def sortPairs (T : List Nat) : List (Nat × Nat) := (T.zipIdx).foldr insertP []
+
+/-- `np.searchsorted(chunk_boundaries, g, side="right")`: the source chunk of global index `g` -/
+def sourceOf (old : List Nat) (g : Nat) : Nat := ((blockOf old g).map (·.1)).getD old.length
+
+/-- `np.unique(source chunks of the sorted taker, return_index=True)`: consecutive runs with the same source chunk -/
+def runsBy (key : Nat → Nat) : List Nat → List (Nat × List Nat)
+  | [] => []
+  | g :: gs =>
+    match runsBy key gs with
+    | (k, run) :: rest => if key g = k then (k, g :: run) :: rest else (key g, [g]) :: (k, run) :: rest
+    | [] => [(key g, [g])]
+
+/-- one output chunk of `_shuffle`: per source chunk a fancy-index `getitem` with the local positions
+    `sorted[b_start:b_end] - boundary`, concatenation, then `take(…, np.argsort(sorter))` -/
+def shuffleChunk {α} [Inhabited α] (old : List Nat) (blocks : List (List α)) (T : List Nat) : List α :=
+  let sp := sortPairs T
+  let sorted := sp.map (·.1)
+  let sorter := sp.map (·.2)
+  let merged := (runsBy (sourceOf old) sorted).flatMap
+    (fun cr => cr.2.map (fun g => (blocks.getD cr.1 []).getD (g - blockStart old cr.1) default))
+  let inv := (List.range T.length).map (fun p => sorter.idxOf p)
+  inv.map (fun i => merged.getD i default)
+
 
 /-! ### reshape helpers -/
 
